@@ -58,6 +58,16 @@ static const double A0 = 6378137.0, F0 = 1 / 298.257223563;
 static string g_dir;
 
 // outputs are pre-filled with distinct sentinels; o[i] untouched <=> still the sentinel
+// Outputs that are not reals (strings, ints, bools) go through the channels S(i), I(i), B(i): they are handed to the library as
+// the reference arguments themselves, pre-filled with sentinels by do_call, and logged as they are after the call
+// (sv: byte codes of the strings, iv: the ints); a bool has no spare value, so a throwing call that uses B() is executed twice,
+// with the bools pre-set to false and to true.
+static string g_S[2]; static int g_I[3]; static bool g_B[2]; static bool g_Bused = false;
+static const string SSENT = "\x01unset";
+static int isent(int i) { return -70001 - i; }
+static string& S(int i) { return g_S[i]; }
+static int& I(int i) { return g_I[i]; }
+static bool& B(int i) { g_Bused = true; return g_B[i]; }
 struct Entry { V nominal; int nouts; function<void(const V&, V&)> call; };
 static map<string, Entry> E;
 #define ENTRY(name, nout, ...) E[name] = Entry{V __VA_ARGS__, nout, [](const V& a, V& o)
@@ -66,20 +76,21 @@ static map<string, Entry> E;
 
 // ---- fixtures on disk: small valid geoid raster and magnetic / gravity models (written once per process) ----
 static void mf_put_i32(string& f, int v); static void mf_put_f64(string& f, double v); static void mf_put_set(string& f, int N, int M, vt::Rng& g, double scale);
-static void mf_base(bool mag, string& m, string& c);
+static void mf_base(const string& kind, string& m, string& c);
 static void fixtures() {
   static bool done = false; if (done) return; done = true;
   { ofstream f((g_dir + "/fx.pgm").c_str(), ios::binary); int w = 36, h = 19;
     f << "P5\n# Description fixture\n# DateTime 2026-10-01 00:00:00\n# Offset -108\n# Scale 0.003\n# MaxBilinearError 0.1\n# RMSBilinearError 0.01\n# MaxCubicError 0.1\n# RMSCubicError 0.01\n"
       << w << " " << h << "\n65535\n";
     for (int j = 0; j < h; ++j) for (int i = 0; i < w; ++i) { unsigned v = unsigned(30000 + 400 * ((i * 7 + j * 13) % 17)); f.put(char(v >> 8)); f.put(char(v & 0xff)); } }
-  for (int mag = 0; mag < 2; ++mag) { string m, c; mf_base(mag, m, c); string name = mag ? "fxm" : "fxg", ext = mag ? ".wmm" : ".egm";
+  for (int fx = 0; fx < 3; ++fx) { bool mag = fx != 0; string m, c; mf_base(fx == 0 ? "grv" : fx == 1 ? "mag" : "mag10", m, c); string name = fx == 0 ? "fxg" : fx == 1 ? "fxm" : "fxn", ext = mag ? ".wmm" : ".egm";
     size_t k = m.find(mag ? "Name cm" : "Name cg"); m.replace(k, 7, "Name " + name);
     { ofstream f((g_dir + "/" + name + ext).c_str(), ios::binary); f.write(m.data(), streamsize(m.size())); }
     { ofstream f((g_dir + "/" + name + ext + ".cof").c_str(), ios::binary); f.write(c.data(), streamsize(c.size())); } }
 }
 static const Geoid& fxgeoid(bool cubic) { fixtures(); static Geoid gl("fx", g_dir, false, true), gc("fx", g_dir, true, true); return cubic ? gc : gl; }
 static const MagneticModel& fxmag() { fixtures(); static MagneticModel m("fxm", g_dir); return m; }
+static const MagneticModel& fxmag10() { fixtures(); static MagneticModel m("fxn", g_dir); return m; }
 static const GravityModel& fxgrv() { fixtures(); static GravityModel m("fxg", g_dir); return m; }
 
 static void registry() {
@@ -166,6 +177,9 @@ static void registry() {
   ENTRY("Geoid.CacheArea", 1, {10.0, 20.0, 40.0, 80.0}) { Geoid g("fx", g_dir, true, false); g.CacheArea(a[0], a[1], a[2], a[3]); o[0] = g(30.0, 50.0); } END;
   ENTRY("MagneticModel.eval", 6, {2003.5, 10.0, 20.0, 1000.0}) { fxmag()(a[0], a[1], a[2], a[3], o[0], o[1], o[2], o[3], o[4], o[5]); } END;
   ENTRY("MagneticModel.Circle", 3, {2003.5, 10.0, 1000.0}) { MagneticCircle c = fxmag().Circle(a[0], a[1], a[2]); c(20.0, o[0], o[1], o[2]); } END;
+  // a model without constant terms (NumModels 1, NumConstants 0: the coefficient sets are exactly the model and its rate)
+  ENTRY("MagneticModel.eval10", 6, {2003.5, 10.0, 20.0, 1000.0}) { fxmag10()(a[0], a[1], a[2], a[3], o[0], o[1], o[2], o[3], o[4], o[5]); } END;
+  ENTRY("MagneticModel.Circle10", 3, {2003.5, 10.0, 1000.0}) { MagneticCircle c = fxmag10().Circle(a[0], a[1], a[2]); c(20.0, o[0], o[1], o[2]); } END;
   ENTRY("MagneticCircle.eval", 6, {20.0}) { MagneticCircle c = fxmag().Circle(2003.5, 10.0, 1000.0); c(a[0], o[0], o[1], o[2], o[3], o[4], o[5]); } END;
   ENTRY("MagneticModel.FieldComponents", 4, {2000.0, -300.0, -40000.0}) { MagneticModel::FieldComponents(a[0], a[1], a[2], o[0], o[1], o[2], o[3]); } END;
   ENTRY("GravityModel.Gravity", 4, {10.0, 20.0, 1000.0}) { o[0] = fxgrv().Gravity(a[0], a[1], a[2], o[1], o[2], o[3]); } END;
@@ -181,8 +195,10 @@ static void registry() {
   ENTRY("NormalGravity.misc", 4, {40.0}) { const NormalGravity& n = NormalGravity::WGS84(); o[0] = n.SurfaceGravity(a[0]); double fx, fy; o[1] = n.Phi(a[0] * 1e5, 2.0e6, fx, fy); o[2] = fx; o[3] = fy; } END;
   ENTRY("NormalGravity.J2ToFlattening", 1, {A0, 3.986004418e14, 7.292115e-5, 1.08263e-3}) { o[0] = NormalGravity::J2ToFlattening(a[0], a[1], a[2], a[3]); } END;
   ENTRY("NormalGravity.FlatteningToJ2", 1, {A0, 3.986004418e14, 7.292115e-5, F0}) { o[0] = NormalGravity::FlatteningToJ2(a[0], a[1], a[2], a[3]); } END;
-  ENTRY("UTMUPS.StandardZone", 1, {40.0, 10.0}) { o[0] = double(UTMUPS::StandardZone(a[0], a[1])); } END;
-  ENTRY("UTMUPS.Transfer", 2, {7.0e5, 4.4e6}) { int z; UTMUPS::Transfer(32, true, a[0], a[1], 33, true, o[0], o[1], z); } END;
+  ENTRY("UTMUPS.StandardZone", 1, {40.0, 10.0}) { I(0) = UTMUPS::StandardZone(a[0], a[1]); o[0] = double(I(0)); } END;
+  // the zone string of the standard zone of a position (EncodeZone of the INVALID zone is documented to be "inv")
+  ENTRY("UTMUPS.EncodeZone", 1, {40.0, 10.0}) { int z = UTMUPS::StandardZone(a[0], a[1]); S(0) = UTMUPS::EncodeZone(z, true); I(0) = z; o[0] = double(S(0).size()); } END;
+  ENTRY("UTMUPS.Transfer", 2, {7.0e5, 4.4e6}) { UTMUPS::Transfer(32, true, a[0], a[1], 33, true, o[0], o[1], I(0)); } END;
   ENTRY("GeoCoords.ctorUTM", 2, {5.0e5, 4.4e6}) { GeoCoords c(32, true, a[0], a[1]); o[0] = c.Latitude(); o[1] = c.Longitude(); } END;
   ENTRY("Ellipsoid.invlats", 5, {40.0}) { const Ellipsoid& e = Ellipsoid::WGS84(); o[0] = e.InverseParametricLatitude(a[0]); o[1] = e.InverseGeocentricLatitude(a[0]); o[2] = e.InverseRectifyingLatitude(a[0]); o[3] = e.InverseAuthalicLatitude(a[0]); o[4] = e.InverseConformalLatitude(a[0]); } END;
   ENTRY("Ellipsoid.InverseIsometricLatitude", 1, {40.0}) { o[0] = Ellipsoid::WGS84().InverseIsometricLatitude(a[0]); } END;
@@ -192,8 +208,9 @@ static void registry() {
   ENTRY("LocalCartesian.Reset", 3, {48.0, 2.0, 100.0}) { LocalCartesian l(0, 0, 0); l.Reset(a[0], a[1], a[2]); l.Forward(48.5, 2.5, 200.0, o[0], o[1], o[2]); } END;
   ENTRY("CassiniSoldner.Reset", 4, {40.0, 10.0}) { CassiniSoldner c(Geodesic::WGS84()); c.Reset(a[0], a[1]); c.Forward(45.0, 12.0, o[0], o[1], o[2], o[3]); } END;
   ENTRY("AlbersEqualArea.SetScale", 1, {30.0, 1.0}) { AlbersEqualArea l(A0, F0, 40.0, 1.0); l.SetScale(a[0], a[1]); o[0] = l.CentralScale(); } END;
-  ENTRY("Geohash.Reverse", 2, {40.0, 10.0}) { string g; Geohash::Forward(a[0], a[1], 12, g); int len; Geohash::Reverse(g, o[0], o[1], len); } END;
+  ENTRY("Geohash.Reverse", 2, {40.0, 10.0}) { string g; Geohash::Forward(a[0], a[1], 12, g); Geohash::Reverse(g, o[0], o[1], I(0)); } END;
   ENTRY("DMS.Encode3", 1, {40.4464}) { double d, m, sec; DMS::Encode(a[0], d, m, sec); o[0] = d + m + sec; } END;
+  ENTRY("DMS.Encode2", 1, {40.4464}) { double d, m; DMS::Encode(a[0], d, m); o[0] = d + m; } END;
   ENTRY("DMS.EncodePrec", 1, {40.4464}) { string s1 = DMS::Encode(a[0], DMS::SECOND, 10, DMS::AZIMUTH), s2 = DMS::Encode(a[0], DMS::DEGREE, 15, DMS::NUMBER), s3 = DMS::Encode(a[0], DMS::MINUTE, 0, DMS::LONGITUDE, ':');
     o[0] = double(s1.size() + s2.size() + s3.size()); } END;
   ENTRY("Utility.str", 1, {40.4464}) { o[0] = double(Utility::str(a[0], 12).size() + Utility::str(a[0], -1).size()); } END;
@@ -209,17 +226,21 @@ static void registry() {
   ENTRY("DAuxLatitude.ctor", 0, {A0, F0}) { DAuxLatitude g(a[0], a[1]); (void) g; (void) o; } END;
   ENTRY("LocalCartesian.ctor", 3, {48.0, 2.0, 100.0}) { LocalCartesian l(a[0], a[1], a[2]); l.Forward(48.5, 2.5, 200.0, o[0], o[1], o[2]); } END;
   // a transfer to UPS that fails late (hemisphere mismatch, a[2] = 0 means northpout = false): outputs must stay untouched
-  ENTRY("UTMUPS.TransferHemi", 2, {5.0e5, 9.385e6, 1.0}) { int z = -7; UTMUPS::Transfer(31, true, a[0], a[1], UTMUPS::UPS, a[2] != 0, o[0], o[1], z); if (z != 0) o[0] = -1; } END;
-  ENTRY("UTMUPS.TransferMatch", 2, {2.0e6, 2.3e6, 1.0}) { int z = -7; UTMUPS::Transfer(0, true, a[0], a[1], UTMUPS::STANDARD, a[2] != 0, o[0], o[1], z); if (z != 0) o[0] = -1; } END;
+  ENTRY("UTMUPS.TransferHemi", 2, {5.0e5, 9.385e6, 1.0}) { UTMUPS::Transfer(31, true, a[0], a[1], UTMUPS::UPS, a[2] != 0, o[0], o[1], I(0)); if (I(0) != 0) o[0] = -1; } END;
+  ENTRY("UTMUPS.TransferMatch", 2, {2.0e6, 2.3e6, 1.0}) { UTMUPS::Transfer(0, true, a[0], a[1], UTMUPS::STANDARD, a[2] != 0, o[0], o[1], I(0)); if (I(0) != 0) o[0] = -1; } END;
+  // the same refusal in a transfer that stays in its zone (UPS north -> UPS), and a transfer that stays in a UTM zone
+  ENTRY("UTMUPS.TransferSame", 2, {2.0e6, 2.3e6, 1.0}) { UTMUPS::Transfer(UTMUPS::UPS, true, a[0], a[1], UTMUPS::UPS, a[2] != 0, o[0], o[1], I(0)); if (I(0) != 0) o[0] = -1; } END;
+  ENTRY("UTMUPS.TransferSameUTM", 2, {5.0e5, 4.4e6, 1.0}) { UTMUPS::Transfer(32, true, a[0], a[1], 32, a[2] != 0, o[0], o[1], I(0)); if (I(0) != 32) o[0] = -1; } END;
   // ---- functions documented to validate their arguments ----
-  ENTRY("UTMUPS.Forward", 4, {40.0, 10.0}) { int z; bool n; UTMUPS::Forward(a[0], a[1], z, n, o[0], o[1], o[2], o[3]); } END;
+  ENTRY("UTMUPS.Forward", 4, {40.0, 10.0}) { UTMUPS::Forward(a[0], a[1], I(0), B(0), o[0], o[1], o[2], o[3]); } END;
   ENTRY("UTMUPS.Reverse", 4, {5.0e5, 4.4e6}) { UTMUPS::Reverse(32, true, a[0], a[1], o[0], o[1], o[2], o[3]); } END;
-  ENTRY("MGRS.Forward", 1, {5.0e5, 4.4e6}) { string m; MGRS::Forward(32, true, a[0], a[1], 5, m); o[0] = double(m.size()); } END;
+  ENTRY("MGRS.Forward", 1, {5.0e5, 4.4e6}) { MGRS::Forward(32, true, a[0], a[1], 5, S(0)); o[0] = double(S(0).size()); } END;
+  ENTRY("MGRS.ForwardLat", 1, {5.0e5, 4.4e6, 39.75}) { MGRS::Forward(32, true, a[0], a[1], a[2], 5, S(0)); o[0] = double(S(0).size()); } END;
   ENTRY("OSGB.Forward", 4, {52.0, -1.0}) { OSGB::Forward(a[0], a[1], o[0], o[1], o[2], o[3]); } END;
-  ENTRY("OSGB.GridReference", 1, {4.0e5, 3.0e5}) { string g; OSGB::GridReference(a[0], a[1], 3, g); o[0] = double(g.size()); } END;
-  ENTRY("Geohash.Forward", 1, {40.0, 10.0}) { string g; Geohash::Forward(a[0], a[1], 8, g); o[0] = double(g.size()); } END;
-  ENTRY("GARS.Forward", 1, {40.0, 10.0}) { string g; GARS::Forward(a[0], a[1], 2, g); o[0] = double(g.size()); } END;
-  ENTRY("Georef.Forward", 1, {40.0, 10.0}) { string g; Georef::Forward(a[0], a[1], 4, g); o[0] = double(g.size()); } END;
+  ENTRY("OSGB.GridReference", 1, {4.0e5, 3.0e5}) { OSGB::GridReference(a[0], a[1], 3, S(0)); o[0] = double(S(0).size()); } END;
+  ENTRY("Geohash.Forward", 1, {40.0, 10.0}) { Geohash::Forward(a[0], a[1], 8, S(0)); o[0] = double(S(0).size()); } END;
+  ENTRY("GARS.Forward", 1, {40.0, 10.0}) { GARS::Forward(a[0], a[1], 2, S(0)); o[0] = double(S(0).size()); } END;
+  ENTRY("Georef.Forward", 1, {40.0, 10.0}) { Georef::Forward(a[0], a[1], 4, S(0)); o[0] = double(S(0).size()); } END;
   ENTRY("GeoCoords.Reset", 2, {40.0, 10.0}) { GeoCoords c(a[0], a[1]); o[0] = c.Easting(); o[1] = c.Northing(); } END;
   ENTRY("DMS.Encode", 1, {40.4464}) { string s = DMS::Encode(a[0], 3, DMS::LATITUDE); o[0] = double(s.size()); } END;
   ENTRY("LambertConformalConic.SetScale", 1, {30.0, 1.0}) { LambertConformalConic l(A0, F0, 40.0, 1.0); l.SetScale(a[0], a[1]); o[0] = l.CentralScale(); } END;
@@ -243,52 +264,85 @@ static string exec(const Entry& e, const V& args, V& outs) {
   catch (...) { return "unknown"; }
 }
 
+static void preset(V& o, bool bval) {
+  for (size_t i = 0; i < o.size(); ++i) o[i] = vt::sentinel(40 + unsigned(i));
+  for (int i = 0; i < 2; ++i) g_S[i] = SSENT;
+  for (int i = 0; i < 3; ++i) g_I[i] = isent(i);
+  for (int i = 0; i < 2; ++i) g_B[i] = bval;
+}
 static void do_call(const vector<string>& t) {
   const string& name = t[1]; int pos = atoi(t[2].c_str()); const string& cls = t[3];
   vt::Rec r; r.str("e", "call").str("n", name).i("pos", pos).str("v", cls);
   auto it = E.find(name);
   if (it == E.end() || pos < 1 || pos > (int) it->second.nominal.size()) { r.b("known", false); r.emit(); return; }
   const Entry& e = it->second;
-  V nomout(e.nouts); for (int i = 0; i < e.nouts; ++i) nomout[i] = vt::sentinel(40 + i);
+  V nomout(e.nouts); preset(nomout, false);
   string nres = exec(e, e.nominal, nomout);
   V args = e.nominal; args[pos - 1] = special(cls);
-  V outs(e.nouts); for (int i = 0; i < e.nouts; ++i) outs[i] = vt::sentinel(40 + i);
+  V outs(e.nouts); preset(outs, false); g_Bused = false;
   string res = exec(e, args, outs);
   vector<long long> isnan_, untouched, samenom;
   for (int i = 0; i < e.nouts; ++i) { isnan_.push_back(std::isnan(outs[i]) && !vt::is_sentinel(outs[i], 40 + i)); untouched.push_back(vt::is_sentinel(outs[i], 40 + i));
     samenom.push_back(vt::bits(outs[i]) == vt::bits(nomout[i])); }
-  r.b("known", true).str("nom", nres).str("out", res).i("nouts", e.nouts).li("nan", isnan_).li("unt", untouched).li("same", samenom);
+  // the channels for strings, ints and bools as the call left them
+  string sv = "["; vector<long long> sunt, iv, iunt;
+  for (int i = 0; i < 2; ++i) { if (i) sv += ","; sv += "["; auto c = vt::codes(g_S[i]); for (size_t j = 0; j < c.size(); ++j) { if (j) sv += ","; sv += to_string(c[j]); } sv += "]"; sunt.push_back(g_S[i] == SSENT); }
+  sv += "]";
+  for (int i = 0; i < 3; ++i) { iv.push_back(g_I[i]); iunt.push_back(g_I[i] == isent(i)); }
+  bool bunt = !g_B[0] && !g_B[1];
+  if (g_Bused && res != "ok") {   // a bool can only be observed against both pre-set values
+    V o2(e.nouts); preset(o2, true); string res2 = exec(e, args, o2); bunt = bunt && g_B[0] && g_B[1] && res2 == res; }
+  r.b("known", true).str("nom", nres).str("out", res).i("nouts", e.nouts).li("nan", isnan_).li("unt", untouched).li("same", samenom)
+   .raw("sv", sv).li("sunt", sunt).li("iv", iv).li("iunt", iunt).i("bunt", bunt);
   r.emit(); fflush(stdout);
 }
 
 // ---- byte strings offered to the parsers ----
-static void do_str(const vector<string>& t) {
-  const string& which = t[1]; string s; for (size_t i = 2; i < t.size(); ++i) s.push_back(char(atoi(t[i].c_str())));
-  string res; bool fin = true;
+// Every argument that a parser uses for return values is pre-filled (doubles with sentinel NaNs, ints with phase-dependent
+// values, bools with the phase, strings with a marker); nref = number of such arguments, unt = all of them still hold the
+// pre-filled value.  A call that throws is executed in both phases, so that a bool / an int written with the value it
+// happened to hold is seen too.
+static string str_once(const string& which, const string& s, int ph, int& nref, bool& unt, bool& fin) {
+  double d[2] = {vt::sentinel(60), vt::sentinel(61)}; int i0 = ph ? -70011 : 70012, i1 = ph ? -70013 : 70014; int iv[2] = {i0, i1};
+  bool b0 = ph != 0, bv = b0; string sm = ph ? "\x01unset1" : "\x01unset0", sv[4] = {sm, sm, sm, sm};
+  DMS::flag f0 = ph ? DMS::AZIMUTH : DMS::NUMBER, fv = f0;
+  nref = 0; int nd = 0, ni = 0, nb = 0, ns = 0, nf = 0; string res;
   try {
-    if (which == "dms") { DMS::flag f; double v = DMS::Decode(s, f); fin = !std::isinf(v); }
-    else if (which == "dmslatlon") { double la, lo; DMS::DecodeLatLon(s, "10E", la, lo); }
+    if (which == "dms") { nf = 1; double v = DMS::Decode(s, fv); fin = !std::isinf(v); }
+    else if (which == "dmslatlon") { nd = 2; DMS::DecodeLatLon(s, "10E", d[0], d[1]); }
     else if (which == "dmsangle") { DMS::DecodeAngle(s); }
     else if (which == "dmsazi") { DMS::DecodeAzimuth(s); }
     else if (which == "geocoords") { GeoCoords c(s); (void) c.Latitude(); }
-    else if (which == "mgrs") { int z, p; bool n; double x, y; MGRS::Reverse(s, z, n, x, y, p); }
-    else if (which == "osgb") { double x, y; int p; OSGB::GridReference(s, x, y, p); }
-    else if (which == "geohash") { double la, lo; int p; Geohash::Reverse(s, la, lo, p); }
-    else if (which == "gars") { double la, lo; int p; GARS::Reverse(s, la, lo, p); }
-    else if (which == "georef") { double la, lo; int p; Georef::Reverse(s, la, lo, p); }
-    else if (which == "zone") { int z; bool n; UTMUPS::DecodeZone(s, z, n); }
+    else if (which == "mgrs") { nd = 2; ni = 2; nb = 1; MGRS::Reverse(s, iv[0], bv, d[0], d[1], iv[1]); }
+    else if (which == "mgrsdecode") { ns = 4; MGRS::Decode(s, sv[0], sv[1], sv[2], sv[3]); }
+    else if (which == "osgb") { nd = 2; ni = 1; OSGB::GridReference(s, d[0], d[1], iv[0]); }
+    else if (which == "geohash") { nd = 2; ni = 1; Geohash::Reverse(s, d[0], d[1], iv[0]); }
+    else if (which == "gars") { nd = 2; ni = 1; GARS::Reverse(s, d[0], d[1], iv[0]); }
+    else if (which == "georef") { nd = 2; ni = 1; Georef::Reverse(s, d[0], d[1], iv[0]); }
+    else if (which == "zone") { ni = 1; nb = 1; UTMUPS::DecodeZone(s, iv[0], bv); }
     else if (which == "val") { (void) Utility::val<double>(s); }
     else if (which == "valint") { (void) Utility::val<int>(s); }
     else if (which == "fract") { (void) Utility::fract<double>(s); }
     else if (which == "date") { (void) Utility::fractionalyear<double>(s); }
-    else if (which == "parseline") { string k, v; Utility::ParseLine(s, k, v); }
+    else if (which == "parseline") { ns = 2; Utility::ParseLine(s, sv[0], sv[1]); }
     res = "ok";
   }
   catch (const GeographicErr&) { res = "GeographicErr"; }
   catch (const std::bad_alloc&) { res = "bad_alloc"; }
   catch (const std::exception&) { res = "std::exception"; }
   catch (...) { res = "unknown"; }
-  vt::Rec r; r.str("e", "str").str("p", which).i("len", (long long) s.size()).str("out", res).b("fin", fin); r.emit(); fflush(stdout);
+  nref = nd + ni + nb + ns + nf;
+  unt = vt::is_sentinel(d[0], 60) && vt::is_sentinel(d[1], 61) && iv[0] == i0 && iv[1] == i1 && bv == b0 && fv == f0
+        && sv[0] == sm && sv[1] == sm && sv[2] == sm && sv[3] == sm;
+  return res;
+}
+static void do_str(const vector<string>& t) {
+  const string& which = t[1]; string s; for (size_t i = 2; i < t.size(); ++i) s.push_back(char(atoi(t[i].c_str())));
+  int nref = 0; bool unt = true, fin = true;
+  string res = str_once(which, s, 0, nref, unt, fin);
+  bool same = true;
+  if (res != "ok") { int n2; bool u2 = true, f2 = true; string r2 = str_once(which, s, 1, n2, u2, f2); unt = unt && u2; same = r2 == res; }
+  vt::Rec r; r.str("e", "str").str("p", which).i("len", (long long) s.size()).str("out", res).b("fin", fin).i("nref", nref).i("unt", unt).b("same", same); r.emit(); fflush(stdout);
 }
 
 // ---- corrupted nearest-neighbour saves (text and binary) ----
@@ -296,7 +350,8 @@ struct Dist { double operator()(double a, double b) const { return fabs(a - b); 
 static void do_nn(const vector<string>& t) {
   // nn <mode: text|bin> <fault> <param>
   bool bin = t[1] == "bin"; const string& fault = t[2]; long long param = atoll(t[3].c_str());
-  vector<double> pts; vt::Rng g(3); for (int i = 0; i < 40; ++i) pts.push_back(g.uni(0, 100));
+  // the point array is allocated with exactly numpoints elements (no spare capacity behind the last point)
+  const int NP = 40; vector<double> pts(NP); vt::Rng g(3); for (int i = 0; i < NP; ++i) pts[size_t(i)] = g.uni(0, 100);
   NearestNeighbor<double, double, Dist> nn(pts, Dist(), 4); ostringstream os; nn.Save(os, bin); string data = os.str();
   if (fault == "truncate") data = data.substr(0, size_t(min<long long>(param, (long long) data.size())));
   else if (fault == "flipbyte" && !data.empty()) data[size_t(param) % data.size()] = char(data[size_t(param) % data.size()] ^ 0x5a);
@@ -313,15 +368,29 @@ static void do_nn(const vector<string>& t) {
       if (!tok.empty()) { tok[size_t(param) % tok.size()] = to_string(val); data.clear(); for (auto& w : tok) { data += w; data += ' '; } } }
     else { size_t words = (data.size() - 16) / 4; if (words) { int v = int(val); memcpy(&data[16 + 4 * (size_t(param) % words)], &v, 4); } }
   }
-  string res; bool usable = true;
-  try { istringstream is(data); NearestNeighbor<double, double, Dist> m; m.Load(is, bin);
-    // a tree that loads must be usable without memory errors
-    vector<int> ind; m.Search(pts, Dist(), 50.0, ind, 3); res = "ok"; }
+  string res; long long np = -1, imin = 0, imax = -1, nret = 0, nq = 0; bool kept = true;
+  static const double Q[] = {-10.0, 0.0, 25.5, 50.0, 99.9, 200.0};
+  // the faulted save is loaded into an object that holds the valid tree ("If an exception is thrown, the state of the
+  // NearestNeighbor is unchanged": after a refused Load it must answer exactly as the valid tree does)
+  NearestNeighbor<double, double, Dist> m(pts, Dist(), 4);
+  try { istringstream is(data); m.Load(is, bin);
+    np = m.NumPoints();
+    // a tree that loads must be usable without memory errors: searches from several query points, for 3 neighbours and for all
+    // points (which visits every leaf); the indices returned are logged (smallest, largest, how many)
+    for (int q = 0; q < 6; ++q) for (int all = 0; all < 2; ++all) { vector<int> ind; m.Search(pts, Dist(), Q[q], ind, all ? NP + 2 : 3); ++nq;
+      for (int j : ind) { if (nret == 0 || j < imin) imin = j; if (nret == 0 || j > imax) imax = j; ++nret; } }
+    res = "ok"; }
   catch (const GeographicErr&) { res = "GeographicErr"; }
   catch (const std::bad_alloc&) { res = "bad_alloc"; }
   catch (const std::exception&) { res = "std::exception"; }
   catch (...) { res = "unknown"; }
-  vt::Rec r; r.str("e", "nn").b("bin", bin).str("fault", fault).i("param", param).str("out", res).b("usable", usable); r.emit(); fflush(stdout);
+  if (np < 0) {   // Load threw: the object against the valid tree
+    kept = m.NumPoints() == nn.NumPoints();
+    if (kept) for (int q = 0; q < 6; ++q) for (int all = 0; all < 2; ++all) { vector<int> i1, i2;
+      double d1 = m.Search(pts, Dist(), Q[q], i1, all ? NP + 2 : 3), d2 = nn.Search(pts, Dist(), Q[q], i2, all ? NP + 2 : 3);
+      kept = kept && i1 == i2 && d1 == d2; } }
+  vt::Rec r; r.str("e", "nn").b("bin", bin).str("fault", fault).i("param", param).str("out", res).i("npts", NP).i("np", np).i("nq", nq).i("nret", nret).i("imin", imin).i("imax", imax).b("kept", kept);
+  r.emit(); fflush(stdout);
 }
 
 
@@ -334,30 +403,44 @@ static void mf_put_set(string& f, int N, int M, vt::Rng& g, double scale) {
   for (int i = 0; i < cs; ++i) mf_put_f64(f, i == 0 ? 0.0 : g.uni(-1, 1) * scale);   // the degree 0 term must be zero in both formats
   for (int i = 0; i < ss; ++i) mf_put_f64(f, g.uni(-1, 1) * scale);
 }
-static void mf_base(bool mag, string& m, string& c) {
+// kinds: "mag" (NumModels 1, NumConstants 1), "mag10", "mag20", "mag21" (NumModels, NumConstants as named), "grv" (correction set of
+// degree 2), "grv0" (empty correction set N = M = -1, which the format description allows: N >= M >= -1)
+static void mf_base(const string& kind, string& m, string& c) {
+  bool mag = kind.substr(0, 3) == "mag";
   string id = mag ? "CONTRMAG" : "CONTRGRV";
   vt::Rng g(11);
   if (mag) {
-    m = "WMMF-2\n# synthetic\nName cm\nDescription synthetic\nReleaseDate 2026-01-01\nRadius 6371200\nNumModels 1\nNumConstants 1\nEpoch 2000\nDeltaEpoch 5\n"
+    int nm = kind.size() == 5 ? kind[3] - '0' : 1, nc = kind.size() == 5 ? kind[4] - '0' : 1;
+    m = "WMMF-2\n# synthetic\nName cm\nDescription synthetic\nReleaseDate 2026-01-01\nRadius 6371200\nNumModels " + to_string(nm) + "\nNumConstants " + to_string(nc) + "\nEpoch 2000\nDeltaEpoch 5\n"
         "MinTime 1990\nMaxTime 2030\nMinHeight -1000\nMaxHeight 600000\nNormalization schmidt\nType linear\nByteOrder little\nID CONTRMAG\n";
-    c = id; mf_put_set(c, 3, 3, g, 1000); mf_put_set(c, 3, 3, g, 10); mf_put_set(c, 2, 2, g, 5);
+    c = id; for (int i = 0; i < nm; ++i) mf_put_set(c, 3, 3, g, 1000);
+    mf_put_set(c, 3, 3, g, 10); if (nc) mf_put_set(c, 2, 2, g, 5);
   } else {
     m = "EGMF-1\n# synthetic\nName cg\nDescription synthetic\nReleaseDate 2026-01-01\nModelRadius 6378136.3\nModelMass 3986004.415e8\nAngularVelocity 7292115e-11\n"
         "ReferenceRadius 6378137\nReferenceMass 3986004.418e8\nFlattening 0.0033528106647474805\nHeightOffset -0.41\nCorrectionMultiplier 0.01\n"
         "Normalization full\nByteOrder little\nID CONTRGRV\n";
-    c = id; mf_put_set(c, 4, 4, g, 1); mf_put_set(c, 2, 2, g, 1e-6);
-    // degree 0/1 terms of a plausible gravity field
+    c = id; mf_put_set(c, 4, 4, g, 1);
+    if (kind == "grv0") mf_put_set(c, -1, -1, g, 0); else mf_put_set(c, 2, 2, g, 1e-6);
   }
+}
+// the coefficient sets of a well-formed coefficient file: offset of the header, N, M, length in bytes
+struct MfSet { size_t off; int N, M; size_t len; };
+static vector<MfSet> mf_sets(const string& c) {
+  vector<MfSet> r; size_t p = 8;
+  while (p + 8 <= c.size()) { int N, M; memcpy(&N, &c[p], 4); memcpy(&M, &c[p + 4], 4);
+    long long cs = (long long)(M + 1) * (2 * N - M + 2) / 2, ss = cs - (N + 1); size_t len = 8 + size_t(8 * (cs + (cs ? ss : 0)));
+    r.push_back(MfSet{p, N, M, len}); p += len; }
+  return r;
 }
 static string mf_value(const string& cls) {
   return cls == "nan" ? "nan" : cls == "inf" ? "inf" : cls == "neg" ? "-1" : cls == "zero" ? "0" : cls == "huge" ? "1e400" : cls == "maxint" ? "2147483647"
        : cls == "bigint" ? "99999999999" : cls == "word" ? "abc" : cls == "two" ? "2" : cls == "frac" ? "1.5" : "";
 }
 static void do_mfile(const vector<string>& t) {
-  // mfile <kind: mag|grv> <part: meta|cof> <fault> <param>
-  bool mag = t[1] == "mag"; bool meta = t[2] == "meta"; const string& fault = t[3]; long long param = atoll(t[4].c_str());
+  // mfile <kind: mag|mag10|mag20|mag21|grv|grv0> <part: meta|cof> <fault> <param>
+  bool mag = t[1].substr(0, 3) == "mag"; bool meta = t[2] == "meta"; const string& fault = t[3]; long long param = atoll(t[4].c_str());
   string name = mag ? "cm" : "cg", ext = mag ? ".wmm" : ".egm", id = mag ? "CONTRMAG" : "CONTRGRV";
-  string m, c; mf_base(mag, m, c);
+  string m, c; mf_base(t[1], m, c);
   string& d = meta ? m : c;
   auto lines = [&]() { vector<string> L; istringstream is(d); string l; while (getline(is, l)) L.push_back(l); return L; };
   auto join = [&](const vector<string>& L) { d.clear(); for (auto& l : L) { d += l; d += '\n'; } };
@@ -373,21 +456,34 @@ static void do_mfile(const vector<string>& t) {
   else if (fault.substr(0, 5) == "word-" && !meta) { size_t words = (d.size() - 8) / 4; string w = fault.substr(5);
     int v = w == "m1" ? -1 : w == "m2" ? -2 : w == "max" ? 2147483647 : w == "min" ? (-2147483647 - 1) : w == "n1" ? 5 : w == "e5" ? 100000 : w == "e4" ? 30000 : 65536;
     if (words) memcpy(&d[8 + 4 * (size_t(param) % words)], &v, 4); }
+  else if ((fault.substr(0, 5) == "pair-" || fault == "empty") && !meta) {   // both header words of coefficient set <param> replaced
+    vector<MfSet> S = mf_sets(c); const MfSet& q = S[size_t(param) % S.size()]; string w = fault == "empty" ? "" : fault.substr(5);
+    int N = w == "00" ? 0 : w == "n1" ? q.N : w == "0m1" ? 0 : -1, M = w == "00" ? 0 : w == "n1" ? q.N + 1 : -1;
+    memcpy(&d[q.off], &N, 4); memcpy(&d[q.off + 4], &M, 4);
+    if (fault == "empty") d.erase(q.off + 8, q.len - 8);   // a well-formed empty set: no coefficients follow N = M = -1
+  }
   { ofstream f((g_dir + "/" + name + ext).c_str(), ios::binary); f.write(m.data(), streamsize(m.size())); }
   { ofstream f((g_dir + "/" + name + ext + ".cof").c_str(), ios::binary); f.write(c.data(), streamsize(c.size())); }
-  string res; bool fin = true;
+  string res; bool fin = true; long long nev = 0;
   try {
-    if (mag) { MagneticModel mm(name, g_dir); double bx, by, bz; mm(2003.5, 10, 20, 1000, bx, by, bz);
-      MagneticCircle mc = mm.Circle(2003.5, 10, 1000); double cx, cy, cz; mc(20, cx, cy, cz); fin = std::isfinite(bx + by + bz + cx + cy + cz); }
+    if (mag) { MagneticModel mm(name, g_dir);
+      // an accepted model is evaluated before its epoch, in every interval, beyond the last model, far beyond, and at huge, infinite
+      // and NaN times (operator() and Circle); only the ordinary times enter `finite`
+      static const double T[] = {1990.0, 2000.0, 2003.5, 2005.0, 2007.0, 2010.0, 2012.5, 2500.0, 1e300, -1e300, INFINITY, -INFINITY, NAN};
+      for (int i = 0; i < 13; ++i) { double bx, by, bz, bxt, byt, bzt; mm(T[i], 10, 20, 1000, bx, by, bz, bxt, byt, bzt);
+        MagneticCircle mc = mm.Circle(T[i], 10, 1000); double cx, cy, cz; mc(20, cx, cy, cz); ++nev;
+        if (i < 8) fin = fin && std::isfinite(bx + by + bz + bxt + byt + bzt + cx + cy + cz); } }
     else { GravityModel gm(name, g_dir); double gx, gy, gz; gm.Gravity(10, 20, 1000, gx, gy, gz); double h = gm.GeoidHeight(10, 20);
-      GravityCircle gc = gm.Circle(10, 1000, GravityModel::ALL); double cx, cy, cz; gc.Gravity(20, cx, cy, cz); fin = std::isfinite(gx + gy + gz + h + cx + cy + cz); }
+      double dx, dy, dz; gm.Disturbance(-40, 120, 5000, dx, dy, dz); double Dg01, xi, eta; gm.SphericalAnomaly(10, 20, 1000, Dg01, xi, eta);
+      GravityCircle gc = gm.Circle(10, 1000, GravityModel::ALL); double cx, cy, cz; gc.Gravity(20, cx, cy, cz); GravityCircle g0 = gm.Circle(10, 0, GravityModel::ALL); double ch = g0.GeoidHeight(20); nev = 6;   // (the geoid height of a circle is defined at h = 0)
+      fin = std::isfinite(gx + gy + gz + h + cx + cy + cz + dx + dy + dz + Dg01 + xi + eta + ch); }
     res = "ok"; }
   catch (const GeographicErr&) { res = "GeographicErr"; }
   catch (const std::bad_alloc&) { res = "bad_alloc"; }
   catch (const std::length_error&) { res = "length_error"; }
   catch (const std::exception&) { res = "std::exception"; }
   catch (...) { res = "unknown"; }
-  vt::Rec r; r.str("e", "mfile").str("kind", t[1]).str("part", t[2]).str("fault", fault).i("param", param).str("out", res).b("finite", fin); r.emit(); fflush(stdout);
+  vt::Rec r; r.str("e", "mfile").str("kind", t[1]).str("part", t[2]).str("fault", fault).i("param", param).str("out", res).b("finite", fin).i("nev", nev); r.emit(); fflush(stdout);
 }
 
 // ---- malformed geoid rasters (.pgm): faults in the text header and in the binary data ----
